@@ -956,3 +956,98 @@ Section Iterate.
              ++ right. split; [reflexivity|]. split; [exact Hi|exact Hr'].
   Qed.
 End Iterate.
+
+(* ------------------------------------------------------------------ OverSamplerIterate.array_via_func_from *)
+Definition level0_nonzero (f : RR -> R) m (ps og : RR) : Prop :=
+  exists p, In p (unmasked m) /\ f (@pixel_centre ROps (shape0 m) (shape1 m) ps og p) <> 0.
+
+Lemma array_sub_1_imap (f : RR -> R) m (ps og : RR) : ps_okR ps ->
+  @to_native R (@zero ROps) m (map f (@grid_slim_via_mask ROps m ps og))
+  = @imap2d R (fun y x b => if b then 0 else Lev0 f ps og (shape0 m) (shape1 m) (y, x)) m.
+Proof.
+  intros Hps. rewrite centres_formula by exact Hps. unfold spec_centres. rewrite map_map.
+  exact (to_native_imap2d (@zero ROps) (fun p => f (@pixel_centre ROps (shape0 m) (shape1 m) ps og p)) m).
+Qed.
+
+Theorem iterate_per_pixel_rule (f : RR -> R) m (ps og : RR) (thr rel : option R) steps :
+  ps_okR ps -> thr_okR thr -> steps <> [] -> subs_ok steps -> level0_nonzero f m ps og ->
+  @iterate_via_func ROps f m ps og thr rel steps = Ok (@spec_iterate ROps f m ps og thr rel steps).
+Proof.
+  intros Hps Hthr Hne Hs [[py px] [Hp Hnz]]. unfold iterate_via_func. change (T ROps) with R.
+  rewrite (array_sub_1_imap f m ps og Hps).
+  rewrite (any_nonzero_imap2d _ m py px false); [|apply (unmasked_cells m (py, px) Hp)|exact Hnz].
+  cbn [negb]. rewrite map_map_const_imap2d.
+  set (Ans := fun p : nat * nat => @rule ROps thr rel (Lev0 f ps og (shape0 m) (shape1 m) p)
+                                     (map (fun s => Lev f ps og (shape0 m) (shape1 m) s p) steps)).
+  assert (Hspec : @spec_iterate ROps f m ps og thr rel steps = map Ans (unmasked m)).
+  { unfold spec_iterate, spec_centres. rewrite map_map. reflexivity. }
+  rewrite Hspec.
+  assert (Hlast : (1 <= last steps 0)%nat).
+  { unfold subs_ok in Hs. rewrite Forall_forall in Hs. apply Hs. destruct steps; [contradiction|]. apply (@exists_last _ (n :: steps)) in Hne.
+    destruct Hne as [l' [a E]]. rewrite E, last_last. apply in_or_app. right. left. reflexivity. }
+  assert (Hrl : subs_ok (removelast steps)).
+  { unfold subs_ok in *. rewrite Forall_forall in *. intros s Hin. apply Hs.
+    rewrite (app_removelast_last 0%nat Hne). apply in_or_app. left. exact Hin. }
+  pose proof (loop_spec f ps og m thr rel Hps Hthr (last steps 0%nat) Ans Hlast (removelast steps)
+                (fun y x b => if b then 0 else Lev0 f ps og (shape0 m) (shape1 m) (y, x)) (fun _ _ _ => @zero ROps) (fun _ _ b => b) Hrl) as L.
+  rewrite imap2d_id in L.
+  assert (Hinv : inv f ps og m thr rel (removelast steps) (last steps 0%nat) Ans
+                   (fun y x b => if b then 0 else Lev0 f ps og (shape0 m) (shape1 m) (y, x)) (fun _ _ _ => @zero ROps) (fun _ _ b => b)).
+  { intros y x b Hc. split; [auto|]. intros Hb. subst b. right. split; [reflexivity|]. split; [reflexivity|].
+    rewrite <- (app_removelast_last 0%nat Hne). reflexivity. }
+  specialize (L Hinv). change (T ROps) with R in L.
+  destruct (@iterate_loop ROps f ps og thr rel (removelast steps) _ _ m) as [it|[it tl]].
+  - f_equal. exact L.
+  - destruct steps as [|s0 steps0]; [contradiction|]. f_equal. exact L.
+Qed.
+
+Lemma any_nonzero_zeros m : @any_nonzero ROps (@imap2d R (fun _ _ _ => 0) m) = false.
+Proof.
+  assert (Hrow : forall y row x, existsb (fun v => negb (Reqb v 0)) (imap_row (fun _ _ _ => 0) y row x) = false).
+  { intros y row. induction row as [|b r IHr]; intros x; cbn [imap_row existsb]; [reflexivity|].
+    rewrite IHr, orb_false_r. destruct (Reqb 0 0) eqn:E; [reflexivity|]. apply Reqb_false in E. contradiction. }
+  unfold any_nonzero, imap2d. unfold zero. cbn [eqb ofZ ROps]. generalize 0%nat.
+  induction m as [|row t IH]; intros y; cbn [imap_from existsb]; [reflexivity|].
+  rewrite IH, orb_false_r. apply Hrow.
+Qed.
+
+(* what the code does when the sub-size-1 array is identically zero: it returns it (the known finding) *)
+Theorem iterate_level0_all_zero_shortcut (f : RR -> R) m (ps og : RR) (thr rel : option R) steps :
+  ps_okR ps -> (forall p, In p (unmasked m) -> f (@pixel_centre ROps (shape0 m) (shape1 m) ps og p) = 0) ->
+  @iterate_via_func ROps f m ps og thr rel steps = Ok (map (fun _ => 0) (unmasked m)).
+Proof.
+  intros Hps Hz. unfold iterate_via_func. change (T ROps) with R. rewrite (array_sub_1_imap f m ps og Hps).
+  rewrite (imap2d_ext _ (fun _ _ _ => 0)).
+  - pose proof (any_nonzero_zeros m) as E.
+    rewrite E. cbn [negb]. rewrite to_slim_imap2d. reflexivity.
+  - intros y x b Hc. destruct b; [reflexivity|]. unfold Lev0.
+    assert (Hin : In (y, x) (unmasked m)).
+    { clear -Hc. unfold cells, unmasked in *. revert Hc. generalize 0%nat. induction m as [|row t IH]; intros y0 Hc; cbn in *; [contradiction|].
+      apply in_app_or in Hc. apply in_or_app. destruct Hc as [Hc|Hc]; [left|right; eapply IH; exact Hc].
+      revert Hc. generalize 0%nat. induction row as [|b r IHr]; intros x0 Hc; cbn in *; [contradiction|].
+      destruct Hc as [E|Hc].
+      - inversion E; subst. left. reflexivity.
+      - destruct b; [|right]; eapply IHr; exact Hc. }
+    apply Hz. exact Hin.
+Qed.
+
+(* witness: one unmasked pixel, unit scale, f(y, x) = y^2 vanishes at the pixel centre (0, 0); the code returns 0,
+   the stated rule gives the value at the last sub-size, 1/16 *)
+Theorem iterate_level0_all_zero_refuted :
+  exists (f : RR -> R) m (ps og : RR) thr rel steps,
+    ps_okR ps /\ thr_okR thr /\ steps <> [] /\ subs_ok steps /\ shape_okP m (repeat 1%nat (length (unmasked m))) /\
+    @iterate_via_func ROps f m ps og thr rel steps <> Ok (@spec_iterate ROps f m ps og thr rel steps).
+Proof.
+  exists (fun p => fst p * fst p), [[false]], (1, 1), (0, 0), (Some (1 / 2)), None, [2%nat].
+  assert (Hps : ps_okR (1, 1)) by (split; cbn; lra).
+  split; [exact Hps|]. split; [cbn; lra|]. split; [discriminate|]. split; [repeat constructor|].
+  split; [split; [reflexivity|repeat constructor]|].
+  rewrite iterate_level0_all_zero_shortcut.
+  - intros E. injection E as E. revert E.
+    unfold spec_iterate, spec_centres, unmasked, pixel_centre, shape0, shape1. cbn [unmasked_from unmasked_row app map length hd fst snd].
+    rewrite sumT_sumR. cbn [sumR].
+    intros E. lra.
+  - exact Hps.
+  - intros p Hp. cbn in Hp. destruct Hp as [E|Hf]; [|contradiction]. subst p. unfold pixel_centre, shape0, shape1. cbn [length hd fst snd add sub mul div ofZ ROps T]. rewrite !ofNat_R.
+    unfold two. cbn. lra.
+Qed.
